@@ -32,6 +32,17 @@ where
         // get the current time only once
         let now = Instant::now();
 
+        // after every second window change, remove all old buckets. This is due for every attempt,
+        // also one that is refused below: a table that is only cleaned when somebody is admitted
+        // does not shrink while all that arrives is refused. (A bucket removed here has expired
+        // twice over, for its own key it is the same as the fresh one inserted next.)
+        if now.saturating_duration_since(self.last_cleanup) >= self.duration * 2 {
+            self.buckets.retain(|_, (last_visit, _, _)| {
+                now.saturating_duration_since(*last_visit) < self.duration * 2
+            });
+            self.last_cleanup = now;
+        }
+
         // get or insert the bucket
         let (bucket_window, bucket_last, bucket_current) =
             self.buckets.entry(key).or_insert((now, 0f32, 0f32));
@@ -61,13 +72,6 @@ where
         // update bucket count
         *bucket_current += 1f32;
 
-        // after every second window change, remove all old buckets
-        if now.saturating_duration_since(self.last_cleanup) >= self.duration * 2 {
-            self.buckets.retain(|_, (last_visit, _, _)| {
-                now.saturating_duration_since(*last_visit) < self.duration * 2
-            });
-            self.last_cleanup = Instant::now();
-        }
         metrics::rate_limiter_size::set(self.buckets.len() as u64);
 
         // allow the request to pass
